@@ -20,6 +20,34 @@ class G:
         self.obj, self.spec, self.kind = obj, spec, kind
         self.par_dim, self.fun_shape, self.funvec_dim = par_dim, tuple(fun_shape), funvec_dim
         self.exact, self.has_vec, self.has_inv = exact, has_vec, has_inv
+        self.tag = spec          # what the driver prints as geometry identity
+        self.coupled = None      # (name, par2fun, fun2par or None) for entry-coupling geometries
+
+    def bind(self, arr, rep):
+        """entry-coupling geometries reach the model as leaf data: the geometry's own maps recorded sample by sample
+        (explicit python loop over the stored columns and over everything a chain of conversions can produce from them)"""
+        if self.coupled is None:
+            return
+        name, f1, f2 = self.coupled
+        n = self.par_dim
+        t1, t2 = {}, {}
+        with quiet():
+            for i in range(arr.shape[-1]):
+                v = np.array(arr[..., i], dtype=float)
+                is_par = (rep == "par")
+                for _ in range(7):
+                    if not np.all(np.isfinite(v)):
+                        break
+                    if is_par:
+                        w = np.asarray(f1(v), dtype=float); t1[qv(v)] = w
+                    else:
+                        if f2 is None:
+                            break
+                        w = np.asarray(f2(v), dtype=float); t2[qv(v)] = w
+                    v, is_par = w, not is_par
+        enc = lambda t: "|".join(f"{k}>{qv(w)}" for k, w in t.items() if np.all(np.isfinite(w))) or "_"
+        self.tag = f"tab:{n}:{name}:{'inv' if f2 is not None else 'noinv'}"
+        self.spec = f"{self.tag}:{enc(t1)}:{enc(t2)}"
 
 
 def step_assign(obj, n):
@@ -30,8 +58,49 @@ def step_assign(obj, n):
     return ",".join(asg)
 
 
+# maps that couple the entries of ONE sample and are not column-separable when handed a (dim, Ns) array:
+# applied to the whole array they keep its shape but give different numbers than applied sample by sample
+COUPLED = {
+    "softmax": lambda x: np.exp(x) / np.sum(np.exp(x)),
+    "l2norm": lambda x: x / np.linalg.norm(x),
+    "l1norm": lambda x: x / np.sum(np.abs(x)),
+    "center": lambda x: x - x.mean(),
+    "cumnorm": lambda x: np.cumsum(x, axis=0) / np.sum(x),
+    "sortall": lambda x: np.sort(np.ravel(x)).reshape(np.shape(x)),
+}
+
+
+def coupled_geom(cuqi, name, n, user):
+    from cuqi.geometry import Continuous1D, MappedGeometry, Geometry
+    f1 = COUPLED[name]
+    if not user:
+        g = G(MappedGeometry(Continuous1D(n), map=f1), "", "coupled-map-" + name, n, (n,), n, exact=False, has_inv=False)
+        g.coupled = (name, f1, None)
+        return g
+    f2 = COUPLED["center"] if name != "center" else COUPLED["sortall"]   # fun2par: another coupling map (no inverse is claimed)
+
+    class UserGeometry(Geometry):
+        """a user geometry subclassing Geometry directly"""
+        def __init__(self, n):
+            self._n = n
+        @property
+        def par_shape(self):
+            return (self._n,)
+        def par2fun(self, p):
+            return f1(p)
+        def fun2par(self, f):
+            return f2(f)
+        def _plot(self, values, **kwargs):
+            pass
+    g = G(UserGeometry(n), "", "coupled-user-" + name, n, (n,), n, exact=False)
+    g.coupled = ("user-" + name, f1, f2)
+    return g
+
+
 def make_geom(cuqi, rng, kind=None):
     from cuqi.geometry import Continuous1D, Continuous2D, Image2D, Discrete, MappedGeometry, StepExpansion
+    if kind is None and rng.random() < 0.3:
+        return coupled_geom(cuqi, rng.choice(sorted(COUPLED)), rng.randint(2, 4), user=(rng.random() < 0.5))
     kind = kind or rng.choice(["default", "cont1d", "discrete", "names", "imgC", "imgF", "c2d", "step", "stepbad",
                                "map-aff-cont", "map-aff-img", "map-affnoinv", "map-sq", "one"])
     if kind == "default":
@@ -101,9 +170,9 @@ def state_str(S, g):
         return "non-array"
     geom = S._geometry
     if g.obj is None:
-        tag = g.spec if (geom is None or repr(geom) == f"_DefaultGeometry1D({g.par_dim},)") else "?"
+        tag = g.tag if (geom is None or repr(geom) == f"_DefaultGeometry1D({g.par_dim},)") else "?"
     else:
-        tag = g.spec if geom is g.obj else "?"
+        tag = g.tag if geom is g.obj else "?"
     shape = ",".join(str(int(v)) for v in arr.shape[:-1]) or "_"
     if not np.all(np.isfinite(arr)):
         return "nonfinite"
@@ -294,11 +363,22 @@ READS = ["fv", "vec", "par", "mean", "median", "variance", "std", "ci", "width",
 def fp(a):
     if isinstance(a, np.ndarray) or isinstance(a, (list, tuple, float, int)):
         try:
-            a = np.asarray(a, dtype=float)
-            return (a.shape, a.tobytes())
+            return np.array(a, dtype=float)
         except Exception:
             return repr(a)[:200]
     return repr(a)[:200]
+
+
+def same_answer(u, v):
+    """two answers of the same read: equal up to 1e-12 (numpy's SIMD exp/sum may differ in the last bit between two
+    evaluations on differently aligned buffers, so bytes are not compared)"""
+    if isinstance(u, tuple) and isinstance(v, tuple):
+        return len(u) == len(v) and all(same_answer(a, b) for a, b in zip(u, v))
+    if isinstance(u, np.ndarray) and isinstance(v, np.ndarray):
+        return u.shape == v.shape and bool(np.allclose(u, v, rtol=1e-12, atol=1e-12, equal_nan=True))
+    if isinstance(u, np.ndarray) or isinstance(v, np.ndarray):
+        return False
+    return u == v
 
 
 def do_read(S, r, p=95):
@@ -355,7 +435,7 @@ def reread_after(ctx, S, answers, key, desc):
     ok = True
     for r, v in answers:
         v2 = do_read(S, r)
-        if v2 != v:
+        if not same_answer(v2, v):
             ok = False
             ctx.fail(f"{key}:reread-{r}", {**desc, "side_read": r}, "same answer as before", "different answer", f"a later {r} on the source gives a different answer than before the call")
     return ok
@@ -515,11 +595,15 @@ def run(ctx):
         if rep == "vec" and not g.has_vec:
             rep = "fun"
         N = rng.choice([1, 2, 3, 4, 5, 6, 8, 9, 12])
+        if g.coupled is not None:
+            N = max(N, 2)
+            rep = "par" if (rep == "par" or g.coupled[2] is None or rng.random() < 0.6) else rep
         arr = initial_array(rng, g, rep, N, dyadic=(rng.random() < 0.2))
+        g.bind(arr, rep)
         ops = []
         n_now = N
         for _ in range(rng.randint(1, 5)):
-            if rng.random() < 0.45:
+            if rng.random() < (0.3 if g.coupled is not None else 0.45):
                 op = gen_bt(rng, n_now, malformed=(rng.random() < 0.08))
                 ops.append(op)
                 if op[2] >= 1 and 0 <= op[1] < n_now:
@@ -549,6 +633,7 @@ def run(ctx):
         pos += 1 + sum(1 for ds in plan["derived"].values() for d in ds if d != "stats")
     outs = [all_outs[i] for i in main_idx]
     branch_reads = branch_derived = 0
+    coupled_stats = {}
     final_states = []   # (g, final impl Samples or None, model final state string)
     aliasing = 0
     nonfinite = [0]
@@ -614,6 +699,13 @@ def run(ctx):
                 ctx.disagree(fkey(ctx, nf, key), sdesc, m[:300], st[:300], "state after the call differs between model and implementation")
                 istates[-1] = "err:diverged"   # later steps would only repeat this disagreement
                 break
+            if g.coupled is not None and op[0] != "bt":
+                cstat = coupled_stats.setdefault(g.kind, {"conversions_compared_with_model": 0, "refusals_agreeing": 0, "Ns>1": 0})
+                if exc is None:
+                    cstat["conversions_compared_with_model"] += 1
+                    cstat["Ns>1"] += int(R.samples.shape[-1] > 1 and R is not cur)
+                else:
+                    cstat["refusals_agreeing"] += 1
             if exc is not None:
                 break
             # ---- reads derived from the returned object (burnthin-then-read, conversion-then-read)
@@ -635,6 +727,7 @@ def run(ctx):
         final_states.append((g, cur if len(istates) == len(ops) and not istates[-1].startswith("err") else None,
                              mstates[-1] if mstates and len(mstates) == len(ops) and not mstates[-1].startswith("err") else None, desc))
     ctx.extra_cov["burnthin_results_sharing_memory_with_source"] = aliasing
+    ctx.extra_cov["entry_coupling_geometries"] = coupled_stats
     ctx.extra_cov["branching_histories"] = {"side_reads_before_a_call": branch_reads, "reads_derived_from_a_result": branch_derived}
     ctx.extra_cov["states_with_nonfinite_values_not_compared"] = nonfinite[0]
     if nonfinite[0]:
@@ -985,6 +1078,12 @@ def geom_from_spec(spec):
         grid = 2 + 0.7 * np.arange(n) if "x" in f[3] else np.linspace(0, 1, n)
         with quiet():
             return G(StepExpansion(grid, n_steps=k), spec, "stepbad" if "x" in f[3] else "step", k, (n,), n, exact=False)
+    if f[0] == "tab":
+        n, name = int(f[1]), f[2]
+        user = name.startswith("user-")
+        g = coupled_geom(None, name[5:] if user else name, n, user)
+        g.tag = ":".join(f[:4]); g.spec = spec
+        return g
     if f[0] == "map":
         a, b, kind = float(Fraction(f[1])), float(Fraction(f[2])), f[3]
         inner = geom_from_spec(":".join(f[4:]))
